@@ -268,8 +268,10 @@ func init() {
 			{Name: "api", N: core.Const(nExShards+192, nExShards+2880), Run: runAPI, Shard: 2, TimeoutS: 3000},
 			{Name: "dump", N: core.Const(nExShards+96, nExShards+1728), Run: runDump, Shard: 2, TimeoutS: 3000},
 			{Name: "e2e", N: core.Const(64, 1200), Run: runE2E, Shard: 4, TimeoutS: 3000},
+			{Name: "concurrent", N: core.Const(16, 128), Run: runConcurrent, Race: true, NRace: core.Const(4, 16), TimeoutS: 600},
 		},
 		Cmds:          []string{"obigrep", "obiannotate"},
+		RaceFiles:     []string{"pkg/obitax/"},
 		MinNontrivial: 400,
 	})
 }
